@@ -198,7 +198,11 @@ def run_case(case, root, ck=None):
                         continue
                     if txn is not None and k[1] == tid_now:
                         continue
-                    if after == 'pack':
+                    if env.intruder_aborted:
+                        bad('C13:abort-before-vote-leaves-blob', 'blob file %r of a transaction that began while another '
+                            'one was in tpc_finish (dirty list reset outside the commit lock) and was then aborted is '
+                            'left in the blob directory' % (k,))
+                    elif after == 'pack':
                         bad('C13:pack-keeps-removed-blob', 'file %r of a revision removed by pack is still there' % (k,))
                     elif after.startswith('abort'):
                         bad('C13:abort-%s-leaves-blob' % ('after-vote' if after == 'abort-voted' else 'before-vote'),
@@ -333,7 +337,7 @@ def run_case(case, root, ck=None):
                       linked = set(linked_p)
                       txn, pending = None, None
                       check('finish')
-                      if env.abort_intruder():
+                      if env.intruder_aborted:
                           check('abort')         # a transaction begun during the finish and aborted: no file
                   elif kind == 'abort':
                       if txn is None:
